@@ -187,6 +187,9 @@ func alter(v any) []string {
 			out = append(out, jsonStr("1"+t))
 		case regexp.MustCompile(`^\d{4}-\d{2}-\d{2}$`).MatchString(t):
 			out = append(out, jsonStr(t[:8]+flipDay(t[8:])))
+		case regexp.MustCompile(`^\d{4}-\d{2}-\d{2}T\d{2}:\d{2}:\d{2}$`).MatchString(t):
+			// another second, and the same reading in other zones (other instants)
+			out = append(out, jsonStr(t[:17]+flipDay(t[17:])), jsonStr(t+"Z"), jsonStr(t+"+09:00"), jsonStr(t+".5"))
 		default:
 			out = append(out, jsonStr(t+"x"), jsonStr(strings.ToUpper(t)+"-"))
 		}
@@ -443,8 +446,15 @@ func judgeEdit2(e Edit, o *vh.Obs) {
 	if jsontree.Equal(j2, b.doc) {
 		// the parser normalised the edit away: nothing changed, so the envelope must still validate
 		o.Class("normalised-away")
+		o.Class("normalised-away:" + e.Kind + ":" + where)
 		if err := env.Validate(); err != nil {
 			o.Failf("unchanged:rejected", "edit %s %s leaves the parsed document identical, yet validation fails: %v", e.Kind, e.Ptr, err)
+		}
+		if e.Kind == "set" {
+			// every alteration tried means something else than the value it replaces
+			// (another number, precision, day, second, zone, text): a parser that reads
+			// both as the same content hides the change from the digest
+			o.Failf("blind-spot:alteration-lost:"+where, "the value at %s altered to %s is read back as the same content, so the change can never be evident", e.Ptr, e.Value)
 		}
 		if e.Kind == "add" {
 			// a member that valid examples of the same schema carry at this very
@@ -713,7 +723,7 @@ func genEdit(t *rapid.T) Edit {
 
 func init() {
 	vh.Describe(
-		"Bases: every example document, enveloped, calculated and valid (quick: a spread of 1 in 7 plus all non-invoice documents for the exhaustive sweep; thorough: all). Exhaustive single edits of the serialised doc: every leaf altered to another value of its type (amounts: digit and precision; percentages; dates; strings; booleans), every member and element removed, every member that other examples carry at the same position, or that the published schema declares there (a small instance built from the schema: lists with one element, maps with one entry, objects with their required members), added, arrays swapped / shortened / duplicated; plus rapid sampling of edits over all bases, and random content-preserving re-encodings (member order, whitespace, \\u escapes). Oracle: J(x) = JSON of marshal(parse(x).doc); J equal => validates with the same digest; J different => Digest() differs from head.dig, Validate() fails (with the digest key when everything else validates), and after Calculate() the digest equals the original iff J does. Non-trivial: the edit changes J (it is not normalised away by the parser).",
+		"Bases: every example document, enveloped, calculated and valid (quick: a spread of 1 in 7 plus all non-invoice documents for the exhaustive sweep; thorough: all). Exhaustive single edits of the serialised doc: every leaf altered to another value of its type (amounts: digit and precision; percentages; dates; date-times: second, zone designator, fraction; strings; booleans) - an alteration that is read back as the same content is a blind spot -, every member and element removed, every member that other examples carry at the same position, or that the published schema declares there (a small instance built from the schema: lists with one element, maps with one entry, objects with their required members), added, arrays swapped / shortened / duplicated; plus rapid sampling of edits over all bases, and random content-preserving re-encodings (member order, whitespace, \\u escapes). Oracle: J(x) = JSON of marshal(parse(x).doc); J equal => validates with the same digest; J different => Digest() differs from head.dig, Validate() fails (with the digest key when everything else validates), and after Calculate() the digest equals the original iff J does. Non-trivial: the edit changes J (it is not normalised away by the parser).",
 		"members the parser does not know are not part of the logical content (they vanish on parse); additions therefore use members other examples carry at the same position or the published schemas declare there",
 	)
 	vh.Enum("edits", enumEdits, judgeEdit)
